@@ -1,7 +1,10 @@
 """C02 - votes are conserved at every step: none created, none lost beyond rounding"""
 from fractions import Fraction
 
+from hypothesis import strategies as st
+
 from .. import gen, model, drive
+from ..gen import D
 from ..run import Result
 from . import common
 
@@ -18,8 +21,16 @@ LEVEL_NOTE = ('the allowed shortfall is the one the property states (2 ulp per b
 GUARDS = {'all': {'gregory-k>=2': 0.03, 'meek-iter>=2': 0.03, 'qpq-elect-then-restart': 0.002}}
 
 
+@st.composite
+def cases(draw, tier):
+    d = D(draw)
+    if d.p(3):
+        return gen.narrow_chain_case(d)     # thousands of ballots, values truncated to zero: the allowance is per ballot, not per line
+    return draw(gen.election_cases(tier=tier, equal_for_meek=True))
+
+
 def strategy(tier):
-    return gen.election_cases(tier=tier, equal_for_meek=True)
+    return cases(tier)
 
 
 def check(case):
